@@ -12,17 +12,17 @@ CHECKS = {
         "statement of what a path denotes); TLC checks the declarative/operational agreement and the per-parent index rule "
         "on every Map of the bounded space, prints every (Map, path, expected values) and the Go harness replays all of them "
         "on the real ValuesForPath/ValueForPath/Exists/ValueForPathString. Exhaustive inside the bounds, which is the right level "
-        "for a pure query whose defects are shape dependent (the pinned defect needed two indexed steps).",
+        "for a pure query whose defects are shape dependent (the pinned defect needed two indexed steps). Parametric families extend the reach: MC_Wide (lists/maps of 31-65 entries under four SetArraySize settings) and MC_Deep (four-level Maps, every path over the key chain with each step plain, indexed in/out of range or wildcard: 780 paths per Map).",
    ref="DESIGN.md section 4, C07", technique="TLA+ spec + TLC exhaustive enumeration, spec->code replay of every behaviour"),
  "C08": dict(
    text="TLA+ specification of ValuesForKey, PathsForKey, PathForKeyShortest and the sub-key predicate (typed, wildcard, negated); TLC checks on every "
         "Map of the bounded space that key search equals the union over the key's paths, that sub-keys are a pure filter and that the shortest path is minimal, "
-        "and prints expected results for every (Map, key, condition set); the harness replays them under both field separators.",
+        "and prints expected results for every (Map, key, condition set); the harness replays them under both field separators. Sessions of Mxj.tla: sub-key STRINGS that are legal under both field separators (and denote different conditions), every history of SetFieldSeparator calls interleaved with key searches, compared after every search.",
    ref="DESIGN.md section 4, C08", technique="TLA+ spec + TLC exhaustive enumeration, spec->code replay"),
  "C09": dict(
    text="TLA+ specification of LeafNodes (exact path strings, both notations, no-attr option); TLC checks one leaf per scalar, resolution through the indexed "
         "path semantics and the no-attr clause on every Map of the bounded space (keys include the empty key, an attribute key and the text key); the harness "
-        "replays LeafNodes/LeafPaths/LeafValues under three attribute prefixes and resolves every returned path through the real ValuesForPath.",
+        "replays LeafNodes/LeafPaths/LeafValues under three attribute prefixes and resolves every returned path through the real ValuesForPath. Sessions of Mxj.tla: every history of LeafUseDotNotation (set / clear / toggle) and SetAttrPrefix calls interleaved with LeafNodes, compared after every call.",
    ref="DESIGN.md section 4, C09", technique="TLA+ spec + TLC exhaustive enumeration, spec->code replay"),
  "C10": dict(
    text="Operational TLA+ specification of UpdateValuesForPath (one branch per code case) checked by TLC against an independently written declarative frame "
@@ -43,21 +43,21 @@ CHECKS = {
         "single-call loop and bulk handlers with nondeterministic verdicts; XML document boundaries by construction, the JSON brace scanner modelled at character level over "
         "streams constructed from abstract objects (braces, quotes, escaped quotes and backslashes in strings). TLC checks exhaustively for every stream profile and "
         "every schedule: no loss/duplication, no over-read, results = documents in order then EOF, Raw exact, handler discipline, termination under fairness; every complete "
-        "behaviour is replayed by a scripted io.Reader against all reader entry points, and every profile (whole and cut at every byte) through real temporary files.",
+        "behaviour is replayed by a scripted io.Reader against all reader entry points, and every profile (whole and cut at every byte) through real temporary files. Unbounded stream length: the byte adaptor's safety is additionally discharged by an inductive invariant in Apalache (AdaptorInd.tla).",
    ref="DESIGN.md section 4, C13", technique="TLA+ spec of reader/adaptor/decoder/handler processes, TLC exhaustive over schedules incl. liveness, schedule replay with scripted io.Reader"),
  "C18": dict(
    text="TLA+ specification MxjOptions of the ~21 package-level option registers as a state machine with one action per setter form; TLC explores the COMPLETE reachable register "
         "space (no depth bound) and checks idempotence of explicit setters, the documented meaning of argument-less forms, the frame of every call, mutual exclusion of the two "
         "escaping switches and restorability (both orders). All histories of two calls and seeded random walks of 30 calls are replayed through the public setters: the code's registers "
         "(hook VerifOptions, incl. derived lenAttrPrefix/trimRunes/special keys) must equal the specification state after EVERY call; at the end of each history every operation class "
-        "must be unaffected by resetting the registers the specification declares irrelevant for it, and after the explicit restore sequence all probes must equal a fresh process.",
+        "must be unaffected by resetting the registers the specification declares irrelevant for it, and after the explicit restore sequence all probes must equal a fresh process. The integrated specification Mxj.tla composes the register machine with the codec and query specifications: seeded random sessions of 24 steps over all setters and six operation classes (decode, cast decode, sequence decode, encode, leaf nodes, key search, leaf cast); TLC checks in every state that operations are functions of the registers (Functional) and depend only on their relevant registers (OnlyRelevant); the real package is stepped through each session and compared after every operation.",
    ref="DESIGN.md section 4, C18", technique="TLA+ register state machine, complete state space in TLC, history replay with state comparison after every call"),
  "C01": dict(
    text="TLA+ specification MxjXml of abstract XML documents and of the documented XML->Map conventions (Decode) written from the documentation, with character-level trimming, case folding, "
         "snake-casing and escaping; TLC enumerates documents by builder actions in factorised families (names incl. namespace prefixes and folding collisions; ordered attributes; text placement, "
         "blank runs, comments) and evaluates Decode under EVERY option combination of the domain (2^7 switches x 3 attribute prefixes x 2 key prefixes), checking one-root, accounting "
         "(every attribute/text/empty element appears exactly once) and that tag sequence numbers only add entries; every (document, option combination, expected Map) is replayed on the real "
-        "decoders through the public setters, each document rendered in one of three concrete syntaxes (quotes, empty-element form, CDATA / numeric references, XML declaration, BOM, leading comment).",
+        "decoders through the public setters, each document rendered in one of three concrete syntaxes (quotes, empty-element form, CDATA / numeric references, XML declaration, BOM, leading comment). Sessions of the integrated specification Mxj.tla (every history of key-folding / prefix setter calls interleaved with decodes, the result compared after every decode) show that a decode depends on nothing but the registers at the time of the call.",
    ref="DESIGN.md section 4, C01", technique="TLA+ transcription of the decode conventions, TLC enumeration of documents x all option combinations, spec->code replay"),
  "C02": dict(
    text="TLA+ specification MxjXmlEncode of the Map->XML encoder (attribute/text/element classification, sorting, list expansion, root rule) with an exact-bytes renderer; over the C01 document "
@@ -67,7 +67,7 @@ CHECKS = {
  "C03": dict(
    text="Same encoder specification applied to JSON-shaped values enumerated by the Map builder (attribute and text keys, empty containers, nil, nested/mixed lists, special characters, number and boolean tokens): "
         "TLC checks per key path that the leaf sequences of the value and of Decode(Encode(value)) agree, one root, and an error exactly for non-scalar attribute entries; the harness compares the exact bytes of "
-        "Map.Xml(), Map.Xml(root), AnyXml (Map and every top-level value) under both empty-element syntaxes, token equivalence of the indented forms, and the real decode of the output with the specification's.",
+        "Map.Xml(), Map.Xml(root), AnyXml (Map and every top-level value) under both empty-element syntaxes, token equivalence of the indented forms, and the real decode of the output with the specification's. The whole space is run a second time under the attribute prefix @ and the reserved-key prefix _; bytes returned by an encoder are compared again after later encoder calls (held-result oracle).",
    ref="DESIGN.md section 4, C03", technique="TLA+ encoder spec + declarative leaf-preservation theorem (TLC), byte-exact spec->code replay"),
  "C04": dict(
    text="TLA+ specification MxjSeq of the sequence-preserving codec: DecodeSeq (per-parent counter over children, text, comments, directives, processing instructions; attribute positions; prefix-preserving names) "
@@ -90,7 +90,7 @@ CHECKS = {
    text="TLA+ specification MxjCast of the cast decision chain over classification predicates (denotes int64 / uint64 / float64 / NaN-or-Inf / bool) supplied by a constants module that the harness generates from strconv on every run; "
         "TLC checks for every catalogue text (64-bit boundaries, decimal/exponent/hex floats, overflow, every case and sign variant of nan/inf/infinity, ParseBool's accepted and rejected spellings, ordinary text) and all 2^6 combinations of "
         "cast flag, int, float, bool, NaN/Inf and skip-tag options: no cast without the flag, never NaN/Inf unless asked, the chosen kind is one the text denotes. Every (text, combination) is replayed in element, attribute and text-key position "
-        "through NewMapXml, NewMapXmlSeq and the internal cast (hook), and Map.Json() must succeed whenever CastNanInf is off.",
+        "through NewMapXml, NewMapXmlSeq and the internal cast (hook), and Map.Json() must succeed whenever CastNanInf is off. Sessions of Mxj.tla: every history of four cast-register setter calls (set / clear / toggle) interleaved with cast decodes of eight leaf texts, compared after every decode.",
    ref="DESIGN.md section 4, C14", technique="TLA+ decision-chain spec over strconv-generated classification, exhaustive catalogue x options in TLC, spec->code replay"),
  "C16": dict(
    text="Encoding is specified as an operator of Map content (EncodeRoot / JsonOf of the encoder specifications, ascending key order checked by TLC); the state of MC_C16 is the content plus a construction history (insert / overwrite / delete), "
@@ -100,7 +100,7 @@ CHECKS = {
  "C17": dict(
    text="Purity: every Map of the builder's space is passed to every read-only method (all ValuesFor*/PathsFor*/Leaf*/Exists/Elements/Attributes/Root queries, XML/JSON/gob encoders, Copy, StringIndent, NewMap, MapSeq encoders) and deep-compared afterwards; "
         "Copy is followed by a mutation of every container of the copy (and of the original) with the other side compared. Concurrency: TLA+ specification MxjConc of G goroutines x programs x gate segments; TLC checks for every interleaving that the shared Map is "
-        "never written, results equal sequential results, and termination; every interleaving is then ENFORCED on real goroutines parked at the gate hook (build tag verif) and the results / shared Map compared, under a -race build, plus free-running stress (8 goroutines) where the race detector reports memory-level races.",
+        "never written, results equal sequential results, and termination; every interleaving is then ENFORCED on real goroutines parked at the gate hook (build tag verif) and the results / shared Map compared, under a -race build, plus free-running stress (8 goroutines) where the race detector reports memory-level races. Fixed richer Maps (lists of records below indexed steps) are queried with indexed variants of every path and sub-keys taken from their content; the concurrent programs include the reader entry points over readers without ReadByte.",
    ref="DESIGN.md section 4, C17", technique="TLA+ interleaving spec (TLC exhaustive), schedule replay with goroutine gates under the Go race detector, purity replay"),
  "C15": dict(
    text="(a) Character-level TLA+ specification MxjArgs of the path, sub-key, new-value and key-pair languages (split rules, index parsing, type names, error classes); TLC enumerates every string of <= N chunks over the significant characters "
@@ -116,7 +116,7 @@ CHECKS = {
  "C20": dict(
    text="TLA+ module MxjLegacy: every exported function of j2x, x2j and x2j-wrapper with a core counterpart is listed with the composition it must equal, and x2j-wrapper's own walkers (PathsForKey, PathForKeyShortest, ValuesFromKeyPath, ValuesAtKeyPath) are specified "
         "declaratively over the core path semantics (attribute entries skipped at wildcard steps unless requested); TLC checks their agreement with the core operators on every Map of the bounded space and prints the expected results. The harness calls EVERY bound function "
-        "(the binding list is compared with the exported identifiers parsed from the three packages with go/parser: an unbound export or an uncalled binding fails the check) and compares with the specification's prediction and with the composition executed on the real core.",
+        "(the binding list is compared with the exported identifiers parsed from the three packages with go/parser: an unbound export or an uncalled binding fails the check) and compares with the specification's prediction and with the composition executed on the real core. MC_C20_deep adds chains 3-10 levels deep with a sibling after every hit; update wrappers are followed by read wrappers on the byte-identical document (wrappers are functions of their arguments).",
    ref="DESIGN.md section 4, C20", technique="TLA+ declarative wrapper specs + binding table (TLC), spec->code replay and differential against the core composition"),
 }
 NOT_YET = "machinery for this property is not built yet in this round (design in DESIGN.md section 4); no claim is made"
